@@ -94,7 +94,7 @@ def cmd_run(sid, props):
     det = meta.setdefault("detection", {})
     try:
         for p in props:
-            env = dict(os.environ, VERIF_REPO=d, VERIF_SEED=os.environ.get("VERIF_SEED", "1"))
+            env = dict(os.environ, VERIF_REPO=d, VERIF_SEED=os.environ.get("VERIF_SEED", "1"), VERIF_EVIDENCE_DIR=os.path.join(d, "_evidence"))
             rc, out = sh([os.path.join(VERIF, "check.sh"), p, "quick"], cwd=VERIF, env=env, timeout=3000)
             lines = [l for l in out.split("\n") if l.startswith("VIOLATION") or l.startswith("INFRA") or " quick seed=" in l]
             det[p] = dict(exit=rc, lines=lines[-3:])
